@@ -77,3 +77,28 @@ package expand
 //@ ensures [empty-is-unset] result.Set == (result.Str != "")
 //@ ensures [set-is-exported-string] implies(result.Set, result.Exported && result.Kind == String && !result.Local && !result.ReadOnly)
 //@ ensures [unset-is-zero] implies(!result.Set, !result.Exported && result.Kind == Unknown && result.Str == "")
+
+// validPair(s): s has the form name=value with a non-empty name.
+//@ spec validPair(s string) bool = cutFound(s, "=") && cutBefore(s, "=") != ""
+
+//@ func listEnviron.compare
+//@ props C34
+//@ ensures [zero-keeps-emptiness] implies(result == 0, (len(a) == 0) == (len(b) == 0))
+//@ pure
+
+// Representation invariant of listEnviron, established by its only constructor: every surviving element is a
+// valid name=value pair (invalid input pairs are ignored).
+//@ func listEnviron_
+//@ props C34
+//@ ensures [survivors-valid] all(j, 0, len(result.(listEnviron).pairs), validPair(result.(listEnviron).pairs[j]))
+//@ loop 1 invariant [prefix-valid] 0 <= i && i <= len(list) && (i == 0) == (len(last) == 0) && all(j, 0, i, validPair(list[j]))
+//@ loop 1 decreases len(list) - i
+
+// Each relies on the representation invariant (it is reached through the Environ interface, so the invariant is
+// assumed here and established by listEnviron_ above): then the documented panic is unreachable.
+//@ func listEnviron.Each
+//@ props C34
+//@ requires [rep] all(j, 0, len(l.pairs), validPair(l.pairs[j]))
+//@ stable l.pairs[*]
+//@ note stable: the callback cannot reach the unexported backing array of l.pairs (no alias is ever handed out)
+//@ loop 1 invariant [rep-kept] all(j, 0, len(l.pairs), validPair(l.pairs[j]))
